@@ -19,8 +19,9 @@ Notation tok := nat (only parsing).
 Notation pid := nat (only parsing).
 Notation item := nat (only parsing).
 
-Inductive kind := KBuffer | KFleet | KBelt.
+Inductive kind := KBuffer | KFleet | KBelt | KSlot.
 Inductive mode := FIFO | LIFO.
+Definition is_belt (k : kind) : bool := match k with KBelt | KSlot => true | _ => false end.
 
 Record req := { r_tok : tok; r_pid : pid; r_prio : Z }.
 
@@ -42,6 +43,7 @@ Inductive op :=
 | CGet (t : tok)
 | Ready (i : item)        (* internal: the item's timer / trip / belt travel ends *)
 | SetGate (b : bool)      (* internal (belts): the spacing condition changes *)
+| TrigPut                 (* internal (belts): the timer callback _trigger_reserve_put *)
 | Sync (n : tok).         (* align the token counter with the kernel's event counter *)
 
 Inductive err := ERuntime | EIndex | EValue.
@@ -85,6 +87,7 @@ Definition admit_put (s : store) : bool :=
   (used s <? cap s) &&
   match s_kind s, transit s with
   | KBelt, _ :: _ => gate s
+  | KSlot, _ :: _ => gate s
   | _, _ => true
   end.
 Definition admit_get (s : store) : bool := length (getres s) <? length (ready s).
@@ -126,7 +129,7 @@ Definition owns (p : pid) (t : tok) (r : req) : bool := Nat.eqb (r_tok r) t && N
 Definition tokb2 (t : tok) (x : req * item) : bool := tokb t (fst x).
 Definition owns2 (p : pid) (t : tok) (x : req * item) : bool := owns p t (fst x).
 
-Definition eff_prio (s : store) (pr : Z) : Z := match s_kind s with KFleet => pr | _ => 0%Z end.
+Definition eff_prio (s : store) (pr : Z) : Z := match s_kind s with KFleet | KSlot => pr | _ => 0%Z end.
 
 (* result of a step: new store, result, tokens triggered.  A crash inside a trigger loop
    (see trig_get) is reported as OErr EIndex with the pre-state kept. *)
@@ -216,6 +219,7 @@ Definition step (s : store) (o : op) : store * out * list tok :=
         else (set_transit s tr, OErr ERuntime, [])
       else (s, OErr EValue, [])
   | SetGate b => (set_gate s b, OOk, [])
+  | TrigPut => let '(s2, ts) := trig_put s in (s2, OOk, ts)
   | Sync n => if next s <=? n then (set_next s n, OOk, []) else (s, OOk, [])
   end.
 
